@@ -134,7 +134,7 @@ class Gen:
                     a += size
             entries.append(dict(a=ins[0]['a'], t=t, c=cidx, ins=ins))
             a += rng.choice([0, 0, 0, 1, 5, 100])
-        return dict(id=cid, idx=cidx, entries=entries, hexa=rng.random() < 0.3, remotes={})
+        return dict(id=cid, idx=cidx, entries=entries, hexa=rng.random() < 0.3, remotes={}, rdirs=[], late=[])
 
     def choose_remotes(self):
         rng = self.rng
@@ -143,12 +143,43 @@ class Gen:
                 if X is Y or rng.random() < 0.25:
                     continue
                 cands = [e for e in Y['entries'] if e['t'] != 'i']
-                decl = []
                 for e in rng.sample(cands, min(len(cands), rng.randint(1, 2))):
                     rest = [i['a'] for i in e['ins'][1:]]
-                    pts = sorted(rng.sample(rest, min(len(rest), rng.randint(0, 2))))
-                    decl.append((e['a'], pts))
-                X['remotes'][Y['idx']] = decl
+                    pts = sorted(rng.sample(rest, min(len(rest), rng.randint(0, 3))))
+                    # asm.rst @remote: a skool file may declare one remote entry in several directives (say one next to
+                    # each routine that refers to it, naming the entry points that routine needs): 1-3 directives whose
+                    # entry-point lists are disjoint, overlapping or identical and together name all of pts
+                    ndir = rng.choice([1, 1, 2, 2, 3]) if pts else rng.choice([1, 1, 1, 2])
+                    lists = [set() for _ in range(ndir)]
+                    for p in pts:
+                        lists[rng.randrange(ndir)].add(p)
+                        for l in lists:
+                            if rng.random() < 0.25:
+                                l.add(p)
+                    for l in lists:
+                        pl = sorted(l)
+                        if rng.random() < 0.3:
+                            rng.shuffle(pl)
+                        X['rdirs'].append([Y['idx'], e['a'], pl])
+            # where the directives stand in the file: at the top, before the title of an entry, or before one of its
+            # instruction lines (entry index, instruction index or -1); X['rdirs'] is kept in file order
+            places = []
+            for _ in X['rdirs']:
+                ei = rng.randrange(len(X['entries']))
+                places.append((ei, rng.randrange(-1, len(X['entries'][ei]['ins']))) if rng.random() < 0.6 else (0, -1))
+            places.sort()
+            rng.shuffle(X['rdirs'])
+            for d, pl in zip(X['rdirs'], places):
+                d.append(pl)
+            # entry points that only a repeated (2nd or 3rd) directive for their entry names
+            named, late = {}, []
+            for yidx, ea, pl, _ in X['rdirs']:
+                X['remotes'].setdefault(yidx, []).append((ea, pl))
+                if (yidx, ea) not in named:
+                    named[(yidx, ea)] = set(pl)
+                else:
+                    late.extend([yidx, ea, p] for p in pl if p not in named[(yidx, ea)] and [yidx, ea, p] not in late)
+            X['late'] = late
 
     def local_ins(self, code, real=True):
         return [(e, i) for e in code['entries'] if not (real and e['t'] == 'i') for i in e['ins']]
@@ -664,7 +695,8 @@ class Gen:
         S['tla'] = tla
         S['meta'] = dict(single=single, runs=runs, opts=opts, anchor=atext, codefiles=ftext, ncodes=len(self.codes),
                          paths=P, join_css=join_css, theme=theme, game=game, ranchors=self.ranchors,
-                         remotes=[sorted(a for decl in c['remotes'].values() for ea, pts in decl for a in [ea] + pts)
+                         late_eps=[c['late'] for c in self.codes], ndirectives=[len(c['rdirs']) for c in self.codes],
+                         remotes=[sorted({a for decl in c['remotes'].values() for ea, pts in decl for a in [ea] + pts})
                                   for c in self.codes])
         # a generated site must not map two documents to one path (that would be an input error, not a finding)
         allp = [tuple(tla['index'])] + [tuple(m['path']) for m in tla['maps']] + [tuple(p['path']) for p in tla['pages']]
@@ -680,14 +712,18 @@ class Gen:
         rng = self.rng
         ctx = code['idx']
         out = []
-        for yidx, decl in code['remotes'].items():
-            Y = self.codes[yidx]
-            for ea, pts in decl:
-                out.append('@remote=%s:%s' % ('main' if yidx == 0 else Y['id'], ','.join(str(a) for a in [ea] + pts)))
+
+        def remote_directives(ei, n):
+            for yidx, ea, pl, place in code['rdirs']:
+                if place == (ei, n):
+                    num = (lambda a: '$%04X' % a) if rng.random() < 0.2 else str
+                    out.append('@remote=%s:%s' % ('main' if yidx == 0 else self.codes[yidx]['id'], ','.join(num(a) for a in [ea] + pl)))
         nlabel = 0
-        for e in code['entries']:
+        for ei, e in enumerate(code['entries']):
             hexa = code['hexa']
+            remote_directives(ei, -1)
             if e['t'] == 'i' and not e['ins'][0]['tpl']:
+                remote_directives(ei, 0)
                 out.append('; Ignored')
                 out.append('i' + skool_addr(e['a'], hexa))
                 out.append('')
@@ -730,6 +766,7 @@ class Gen:
                 if rng.random() < 0.2 and e['t'] != 'i':
                     out.append('@label=%s%d' % (rng.choice(['LOOP', 'START', 'data_']), nlabel))
                     nlabel += 1
+                remote_directives(ei, n)
                 ctl = e['t'] if n == 0 else ('*' if i.get('star') else ' ')
                 line = ctl + skool_addr(i['a'], hexa if rng.random() < 0.9 else not hexa) + ' ' + i['op']
                 if rng.random() < 0.4:
@@ -986,7 +1023,8 @@ def render_sim(site, n):
         te = container(r['c'], r['a'])
         if r['c'] != fromc:
             m += '@' + ids[r['c'] - 1]
-            remotes.setdefault((r['c'], te['a']), set()).add(r['a'])
+            # Site.tla Directives: one @remote per reference that leaves the disassembly, next to the referring routine
+            remotes.append('@remote=%s:%s' % (ids[r['c'] - 1], ','.join(str(a) for a in [te['a']] + [r['a']] * (r['a'] != te['a']))))
         if r.get('anc') and not r['op']:
             # the explicit anchor of Site.tla's references: a number that evaluates to the containing entry's address
             txt = ('$%04X' if (n + r['a']) % 3 == 0 else '%d') % te['a']
@@ -996,19 +1034,20 @@ def render_sim(site, n):
     OPS = {'c': 'XOR A', 't': 'DEFM "a"', 's': 'DEFS 1', 'w': 'DEFW 0'}
     sources = {}
     page = site['pages'][0]
-    remotes_main = {}
+    remotes_main = []
     content = ' '.join(['#HTML(<span id="%s"></span><a href="#%s">here</a>)' % (i, i) for i in page['ids']]
                        + [rmacro(1, r, remotes_main) for r in page['refs']])
     ref.append('[Page:P1]\nPageContent=' + content)
     for c in (1, 2):
-        remotes = remotes_main if c == 1 else {}
-        body = []
+        body = list(remotes_main) if c == 1 else []
         for e in sorted(by_code[c], key=lambda e: e['a']):
-            body.append('; Entry %d' % e['a'])
+            remotes = []
             macros = [rmacro(c, r, remotes) for r in e.get('refs', ()) if not r['op']]
             operands = [r for r in e.get('refs', ()) if r['op']]
             for r in operands:
                 rmacro(c, r, remotes)      # declares the @remote entry an operand needs as well
+            body.extend(remotes)
+            body.append('; Entry %d' % e['a'])
             if macros:
                 body.append(';')
                 body.append('; ' + ' '.join(macros))
@@ -1020,9 +1059,7 @@ def render_sim(site, n):
                     op = 'DEFW %d' % operands[0]['a']
                 body.append('%s%05d %s' % (e['t'] if i == 0 else ' ', a, op))
             body.append('')
-        head = ['@remote=%s:%s' % (ids[rc - 1], ','.join(str(a) for a in [ea] + sorted(pts - {ea})))
-                for (rc, ea), pts in sorted(remotes.items())]
-        sources['game.skool' if c == 1 else 'other.skool'] = '\n'.join(head + body) + '\n'
+        sources['game.skool' if c == 1 else 'other.skool'] = '\n'.join(body) + '\n'
     sources['game.ref'] = '\n\n'.join(ref) + '\n'
     tla = dict(site, doc=1)
     return dict(seed=n, sim=True, sources=sources, runs=[['-q']], tla=tla,
